@@ -141,6 +141,23 @@ func oracle(c core.Case, out []string) []core.Finding {
 	bound := -1    // absolute round by which every correct node must have decided
 	afterSync := 0 // closures seen after the synchrony point
 	var lastEnd string
+	// for every node and round q: the round the node was in BEFORE the move during which the +2/3
+	// prevote majority of round q first showed up in its vote set
+	prevRound := map[int]int{}
+	roundAtPolka := map[int]map[int]int{}
+	observe := func(id int, v nodeView) {
+		if v.decided == "" && !v.halted {
+			if roundAtPolka[id] == nil {
+				roundAtPolka[id] = map[int]int{}
+			}
+			for q := range v.polkas {
+				if _, ok := roundAtPolka[id][q]; !ok {
+					roundAtPolka[id][q] = prevRound[id]
+				}
+			}
+			prevRound[id] = v.r
+		}
+	}
 	check := func(i int) {
 		// agreement on the proposer of a round, among correct nodes that are in that round
 		ids := make([]int, 0, len(views))
@@ -183,10 +200,13 @@ func oracle(c core.Case, out []string) []core.Finding {
 				correct[int(x)] = true
 			}
 			views = map[int]nodeView{}
+			prevRound = map[int]int{}
+			roundAtPolka = map[int]map[int]int{}
 			synced, syncR, bound, afterSync, lastEnd = false, -1, -1, 0, ""
 		case "dl", "claim", "byzclaim", "fire":
 			if id, v, ok := parseNode(o); ok {
 				views[id] = v
+				observe(id, v)
 				if v.halted {
 					add("state.correct-node-panics", fmt.Sprintf("correct node %d halted with a panic (op %d: %s)", id, i, o[strings.Index(o, " |")+1:]))
 				}
@@ -197,6 +217,7 @@ func oracle(c core.Case, out []string) []core.Finding {
 			for _, p := range parts[1:] {
 				if id, v, ok := parseNode(p); ok {
 					views[id] = v
+					observe(id, v)
 				}
 			}
 			check(i)
@@ -301,17 +322,28 @@ func oracle(c core.Case, out []string) []core.Finding {
 		bump(histEnd, "inconclusive")
 		// a correct node still locked on a block although it holds a polka for something else from a
 		// later round that it has reached: the unlock rule was never re-evaluated
-		stale := ""
+		// — the known defect only if the polka arrived while the node was still in an EARLIER round (then
+		// the rule `LockedRound < vote.Round <= cs.Round` legitimately did not fire); a lock that survives a
+		// polka of a round the node had already reached is something else
+		stale, late := "", ""
 		for id, v := range views {
 			if v.decided == "" && !v.halted && v.lb != "-" && v.lb != "" {
 				for q, val := range v.polkas {
 					if v.lr < q && q <= v.r && val != v.lb {
-						stale = fmt.Sprintf("node %d is locked on block %s since round %d although it holds +2/3 prevotes for %s from round %d (it is in round %d)", id, v.lb, v.lr, val, q, v.r)
+						d := fmt.Sprintf("node %d is locked on block %s since round %d although it holds +2/3 prevotes for %s from round %d (it is in round %d; it was in round %d when that majority arrived)", id, v.lb, v.lr, val, q, v.r, roundAtPolka[id][q])
+						if roundAtPolka[id][q] < q {
+							stale = d
+						} else {
+							late = d
+						}
 					}
 				}
 			}
 		}
-		if bound >= 0 && endR > bound+1 && stale != "" {
+		if bound >= 0 && endR > bound+1 && late != "" {
+			add("sync.lock-not-released-by-polka-of-reached-round",
+				fmt.Sprintf("all messages delivered from round %d on, correct nodes reached round %d without deciding (bound was round %d): %s", syncR, endR, bound, late))
+		} else if bound >= 0 && endR > bound+1 && stale != "" {
 			add("sync.stale-lock-never-released",
 				fmt.Sprintf("all messages delivered from round %d on, correct nodes reached round %d without deciding (bound was round %d): %s", syncR, endR, bound, stale))
 		} else if bound >= 0 && endR > bound+1 {
